@@ -141,7 +141,7 @@ Proof.
   - destruct (f x) eqn:Ef; [rewrite (H x Ef) in Eg; discriminate|]. cbn [orb]. exact IH.
 Qed.
 
-Lemma get_writelog_new_batch db w s e : get_writelog (fst (new_batch db w)) s e = get_writelog db s e.
+Lemma get_writelog_set_next db w n s e : get_writelog (set_next db w n) s e = get_writelog db s e.
 Proof. reflexivity. Qed.
 
 Lemma get_writelog_commit_later db seq b s e :
@@ -204,9 +204,28 @@ Proof.
     destruct Hin as [Heq|[]]. injection Heq as <- _ _. exact Hlt.
 Qed.
 
+Lemma new_batch_some db v db' s :
+  new_batch db v = Some (db', s) -> db' = set_next db v (s + 1) /\ s = next_of db v /\ s <> SEQ_MAX.
+Proof.
+  unfold new_batch. destruct (next_of db v =? SEQ_MAX) eqn:E; [discriminate|].
+  intros H. injection H as <- <-. apply N.eqb_neq in E. repeat split. exact E.
+Qed.
+
+Lemma get_writelog_burn n : forall db v s e,
+  get_writelog (fst (burn_nat new_batch n db v)) s e = get_writelog db s e.
+Proof.
+  induction n as [|n IH]; intros db v s e; cbn [burn_nat]; [reflexivity|].
+  destruct (new_batch db v) as [[db1 s1]|] eqn:En; [|apply IH].
+  apply new_batch_some in En as [-> _].
+  destruct (burn_nat new_batch n (set_next db v (s1 + 1)) v) as [db2 g] eqn:E.
+  cbn [fst]. pose proof (IH (set_next db v (s1 + 1)) v s e) as H. rewrite E in H. cbn [fst] in H.
+  rewrite H. reflexivity.
+Qed.
+
 (* any later history: commits into and finalizations of later versions *)
 Inductive later_call (v : N) : tcall -> Prop :=
 | LCommit b : v < fst (b_end b) -> later_call v (TCommit b)
+| LBurn w n : later_call v (TBurn w n)
 | LFinalize w pick : v < w -> later_call v (TFinalize w pick)
 | LGet s e : later_call v (TGet s e).
 
@@ -214,7 +233,11 @@ Fixpoint run_calls (db : pbdb) (t : list tcall) : pbdb :=
   match t with
   | [] => db
   | TCommit b :: r =>
-      let (db1, seq) := new_batch db (fst (b_end b)) in run_calls (fst (commit db1 seq b)) r
+      match new_batch db (fst (b_end b)) with
+      | Some (db1, seq) => run_calls (fst (commit db1 seq b)) r
+      | None => run_calls db r
+      end
+  | TBurn v n :: r => run_calls (fst (burn_nat new_batch (N.to_nat n) db v)) r
   | TFinalize w pick :: r => run_calls (finalize db w pick) r
   | TGet _ _ :: r => run_calls db r
   end.
@@ -224,9 +247,11 @@ Lemma served_log_stable_lem t : forall db s e,
   get_writelog (run_calls db t) s e = get_writelog db s e.
 Proof.
   induction t as [|c r IH]; intros db s e H; cbn [run_calls]; [reflexivity|].
-  inversion H as [|? ? Hc Hr]; subst. destruct Hc as [b Hb|w pick Hw|s0 e0].
-  - cbn [new_batch]. rewrite IH by exact Hr.
+  inversion H as [|? ? Hc Hr]; subst. destruct Hc as [b Hb|w n|w pick Hw|s0 e0].
+  - destruct (new_batch db (fst (b_end b))) as [[db1 s1]|] eqn:En; [|apply IH; exact Hr].
+    apply new_batch_some in En as [-> _]. rewrite IH by exact Hr.
     rewrite get_writelog_commit_later by exact Hb. reflexivity.
+  - rewrite IH by exact Hr. apply get_writelog_burn.
   - rewrite IH by exact Hr. apply get_writelog_finalize_later. exact Hw.
   - apply IH. exact Hr.
 Qed.
@@ -322,3 +347,122 @@ Example fork_trace :
       ODone;
       OGet GRootNotFound; OGet (GServed [([97], Some [2]); ([98], Some [2])]) ].
 Proof. vm_compute. reflexivity. Qed.
+
+(* ---------- sequence numbers ---------- *)
+Lemma seq_refused_at_max_lem db v : next_of db v = SEQ_MAX -> new_batch db v = None.
+Proof. intros H. unfold new_batch. rewrite H. reflexivity. Qed.
+
+Lemma next_of_set_next_same db v n : next_of (set_next db v n) v = n.
+Proof. unfold next_of, set_next. cbn [d_next]. rewrite aget_aset_same. reflexivity. Qed.
+Lemma next_of_set_next_other db v w n : v <> w -> next_of (set_next db w n) v = next_of db v.
+Proof. intros H. unfold next_of, set_next. cbn [d_next]. rewrite aget_aset_other by exact H. reflexivity. Qed.
+Lemma next_of_commit db seq b v : next_of (fst (commit db seq b)) v = next_of db v.
+Proof.
+  unfold commit. destruct (is_finalized _ _); [reflexivity|]. destruct (has_rid _ _); reflexivity.
+Qed.
+Lemma next_of_finalize db w p v : next_of (finalize db w p) v = next_of db v.
+Proof. reflexivity. Qed.
+
+Lemma next_of_new_batch db w db' s v :
+  new_batch db w = Some (db', s) -> next_of db v <= next_of db' v.
+Proof.
+  intros H. apply new_batch_some in H as [-> [Hs _]].
+  destruct (N.eq_dec v w) as [->|Hne].
+  - rewrite next_of_set_next_same. lia.
+  - rewrite next_of_set_next_other by exact Hne. lia.
+Qed.
+
+Lemma next_of_burn n : forall db w v, next_of db v <= next_of (fst (burn_nat new_batch n db w)) v.
+Proof.
+  induction n as [|n IH]; intros db w v; cbn [burn_nat fst]; [lia|].
+  destruct (new_batch db w) as [[db1 s1]|] eqn:En; [|apply IH].
+  pose proof (next_of_new_batch db w db1 s1 v En) as H1. pose proof (IH db1 w v) as H2.
+  destruct (burn_nat new_batch n db1 w) as [db2 g]. cbn [fst] in *. lia.
+Qed.
+
+(* the numbers granted to the commits of one version, in order *)
+Fixpoint commit_seqs (db : pbdb) (t : list tcall) (v : N) : list N :=
+  match t with
+  | [] => []
+  | TCommit b :: r =>
+      match new_batch db (fst (b_end b)) with
+      | Some (db1, s) =>
+          (if fst (b_end b) =? v then [s] else []) ++ commit_seqs (fst (commit db1 s b)) r v
+      | None => commit_seqs db r v
+      end
+  | TBurn w n :: r => commit_seqs (fst (burn_nat new_batch (N.to_nat n) db w)) r v
+  | TFinalize w p :: r => commit_seqs (finalize db w p) r v
+  | TGet _ _ :: r => commit_seqs db r v
+  end.
+
+Fixpoint increasing_from (lo : N) (l : list N) : Prop :=
+  match l with
+  | [] => True
+  | x :: r => lo <= x /\ increasing_from (x + 1) r
+  end.
+
+Lemma increasing_weaken l : forall lo lo', lo' <= lo -> increasing_from lo l -> increasing_from lo' l.
+Proof. destruct l as [|x r]; intros lo lo' H; cbn [increasing_from]; [trivial|]. intros [H1 H2]. split; [lia|exact H2]. Qed.
+
+Lemma increasing_lower l : forall lo, increasing_from lo l -> Forall (fun x => lo <= x) l.
+Proof.
+  induction l as [|x r IH]; intros lo; cbn [increasing_from]; [constructor|].
+  intros [H1 H2]. constructor; [exact H1|]. eapply Forall_impl; [|apply (IH (x + 1) H2)].
+  cbv beta. intros a Ha. lia.
+Qed.
+
+Lemma increasing_nodup l : forall lo, increasing_from lo l -> NoDup l.
+Proof.
+  induction l as [|x r IH]; intros lo; cbn [increasing_from]; [constructor|].
+  intros [H1 H2]. constructor; [|apply (IH (x + 1) H2)].
+  intros Hin. pose proof (increasing_lower r (x + 1) H2) as Hf. rewrite Forall_forall in Hf.
+  specialize (Hf x Hin). lia.
+Qed.
+
+Lemma commit_seqs_increasing t : forall db v, increasing_from (next_of db v) (commit_seqs db t v).
+Proof.
+  induction t as [|c r IH]; intros db v; cbn [commit_seqs]; [exact I|].
+  destruct c as [b|w n|w p|s e].
+  - destruct (new_batch db (fst (b_end b))) as [[db1 s1]|] eqn:En; [|apply IH].
+    pose proof (new_batch_some _ _ _ _ En) as [Hdb [Hs _]].
+    pose proof (IH (fst (commit db1 s1 b)) v) as H. rewrite next_of_commit in H.
+    destruct (fst (b_end b) =? v) eqn:Ev; cbn [app].
+    + apply N.eqb_eq in Ev. cbn [increasing_from]. split; [subst; lia|].
+      subst db1. rewrite <- Ev in H. rewrite next_of_set_next_same in H. rewrite <- Ev. exact H.
+    + eapply increasing_weaken; [|exact H]. apply (next_of_new_batch _ _ _ _ v En).
+  - eapply increasing_weaken; [|apply IH]. apply next_of_burn.
+  - apply (IH (finalize db w p) v).
+  - apply IH.
+Qed.
+
+(* sequence numbers granted within one version are pairwise distinct, for any
+   history and any number of reservations; at the bound the store refuses *)
+Lemma commit_seqs_distinct_lem db t v :
+  NoDup (commit_seqs db t v) /\ Forall (fun s => s <> SEQ_MAX) (commit_seqs db t v).
+Proof.
+  split; [eapply increasing_nodup; apply commit_seqs_increasing|].
+  revert db. induction t as [|c r IH]; intros db; cbn [commit_seqs]; [constructor|].
+  destruct c as [b|w n|w p|s e]; try apply IH.
+  destruct (new_batch db (fst (b_end b))) as [[db1 s1]|] eqn:En; [|apply IH].
+  apply Forall_app. split; [|apply IH].
+  destruct (fst (b_end b) =? v); [|constructor].
+  constructor; [|constructor]. apply new_batch_some in En as [_ [_ H]]. exact H.
+Qed.
+
+(* the wrapping counter, refuted: commit A (number 0, final slots), 65535
+   abandoned reservations, commit a competing root D: it gets number 0 again
+   and overwrites A's nodes; the log served for (R0, A) then carries D's values *)
+Definition wrap_trace : list tcall :=
+  [ TCommit (mkBatch (0, 0) (1, 1) [((1, 1), SLeaf [97] [1]); ((1, 2), SLeaf [98] [1])] []
+                     (Some (SInternal None)) [IInsert (1, 1); IInsert (1, 2)]);
+    TBurn 1 65535;
+    TCommit (mkBatch (0, 0) (1, 2) [((1, 1), SLeaf [97] [4]); ((1, 2), SLeaf [98] [4])] []
+                     (Some (SInternal None)) [IInsert (1, 1); IInsert (1, 2)]);
+    TGet (0, 0) (1, 1) ].
+
+Lemma seq_wrap_refuted_lem :
+  run_trace_with new_batch_wrapping empty_db wrap_trace =
+    [OSeq 0; OBurn 65535; OSeq 0; OGet (GServed [([97], Some [4]); ([98], Some [4])])] /\
+  run_trace_with new_batch empty_db wrap_trace =
+    [OSeq 0; OBurn 65534; ORefused; OGet (GServed [([97], Some [1]); ([98], Some [1])])].
+Proof. split; vm_compute; reflexivity. Qed.
